@@ -21,3 +21,4 @@ func TestC13(t *testing.T)        { C13.Run(t) }
 func TestC13Closure(t *testing.T) { RunC13Closure(t) }
 func TestC15(t *testing.T) { C15.Run(t) }
 func TestC19(t *testing.T) { C19.Run(t) }
+func TestC14(t *testing.T) { C14.Run(t) }
